@@ -64,6 +64,9 @@ MulE(a, n) == [op |-> "mul", t |-> Nil, kids |-> <<a>>, n |-> n]
 Simple == {T(t) : t \in Terms}
            \cup {AndE(T(a), T(b)) : a \in GpuTerms \cup DurTerms, b \in CpuTerms}
            \cup {MulE(T(a), n) : a \in GpuTerms, n \in 1..3}
+           \cup {AndE(T(a), T(b)) : a, b \in {Cpu(12, 1), Cpu(2, 16), Cpu(70, 4), Cpu(0, 16)}}      \* two CPU terms, often incomparable
+           \cup {AndE(T(a), T(b)) : a, b \in {Gpu(70), Gpu(24), Gpu(12)}}                         \* GPUs of different sizes
+           \cup {AndE(AndE(T(Gpu(70)), T(Gpu(12))), T(c)) : c \in {Gpu(24), Cpu(12, 4)}}
            \cup {AndE(MulE(T(a), n), T(b)) : a \in {Gpu(12), Gpu(24)}, n \in 2..3, b \in {Cpu(12, 4), Cpu(70, 16)}}
            \cup {AndE(AndE(T(d), T(a)), T(b)) : d \in DurTerms, a \in {Gpu(12), Gpu(70)}, b \in {Cpu(2, 1), Cpu(70, 4)}}
            \cup {MulE(AndE(AndE(T(d), T(a)), T(b)), 2) : d \in DurTerms, a \in {Gpu(24)}, b \in {Cpu(12, 4)}}
@@ -84,12 +87,28 @@ HostSeq == SetToSeq(Hosts)
 MatchSound == Part = "match" => \A h \in Hosts : \A i \in DOMAIN x.es : Match(Norm(x.es[i]), h) => Satisfies(h, Norm(x.es[i]))
 AndMulPure == TRUE   \* And / Mul are functions: operands cannot change; aliasing in the code shows as a replay mismatch
 
+(* LauncherRegistry.find with a user function that tries a list of hosts in order: the alternatives of the request are
+   tried in the order given -- the result is the first alternative for which some host matches, and that host *)
+FindIn(rs, hs) ==
+  LET ok(i) == \E k \in DOMAIN hs : Match(rs[i], hs[k])
+  IN IF \E i \in DOMAIN rs : ok(i)
+     THEN LET i == CHOOSE i \in DOMAIN rs : ok(i) /\ \A j \in 1..(i - 1) : ~ok(j)
+              k == CHOOSE k \in DOMAIN hs : Match(rs[i], hs[k]) /\ \A m \in 1..(k - 1) : ~Match(rs[i], hs[m])
+          IN <<i, k>>
+     ELSE <<0, 0>>
+FindHosts == {[mem |-> 64, cores |-> 16, maxdur |-> 0, mingpu |-> 0, gpus |-> <<>>],
+              [mem |-> 8, cores |-> 2, maxdur |-> 0, mingpu |-> 0, gpus |-> <<[mem |-> 80, minmem |-> 0]>>],
+              [mem |-> 64, cores |-> 16, maxdur |-> 18000, mingpu |-> 1, gpus |-> <<[mem |-> 24, minmem |-> 0], [mem |-> 24, minmem |-> 0]>>],
+              [mem |-> 8, cores |-> 16, maxdur |-> 0, mingpu |-> 0, gpus |-> <<[mem |-> 12, minmem |-> 0]>>]}
+HostLists == SetToSeq({<<a, b>> : a, b \in FindHosts})
+
 MatchInputs == {[es |-> <<e>>] : e \in Simple} \cup {[es |-> u] : u \in Unions}
 MatchEmit ==
   Part = "match" =>
     PrintT(<<"CASE", ToJson([ es |-> x.es, norm |-> [i \in DOMAIN x.es |-> Norm(x.es[i])],
-                              res |-> [i \in DOMAIN HostSeq |-> FirstMatch([k \in DOMAIN x.es |-> Norm(x.es[k])], HostSeq[i])] ])>>)
-ASSUME Part = "match" => PrintT(<<"HOSTS", ToJson(HostSeq)>>)
+                              res |-> [i \in DOMAIN HostSeq |-> FirstMatch([k \in DOMAIN x.es |-> Norm(x.es[k])], HostSeq[i])],
+                              find |-> [i \in DOMAIN HostLists |-> FindIn([k \in DOMAIN x.es |-> Norm(x.es[k])], HostLists[i])] ])>>)
+ASSUME Part = "match" => PrintT(<<"HOSTS", ToJson([hosts |-> HostSeq, lists |-> HostLists])>>)
 
 (* ================= 2. job filters ================= *)
 (* job: [tags: function name -> value, state, name].  Absent tag / no state = "-" (None) *)
